@@ -2480,8 +2480,8 @@ def run(ctx):
             for c in TYPED_CORPUS:
                 dispatch(ctx, copy.deepcopy(c))
             plan = []
-            for drv, nq, nt in (("dump", 60, 700), ("store", 30, 300), ("generate", 8, 80), ("manifest", 8, 80),
-                                ("restart", 12, 120), ("details", 25, 300)):
+            for drv, nq, nt in (("dump", 60, 500), ("store", 30, 150), ("generate", 8, 40), ("manifest", 8, 40),
+                                ("restart", 12, 60), ("details", 25, 200)):
                 plan += [drv] * (nq if quick else nt)
             rng.shuffle(plan)
             for drv in plan:
